@@ -165,6 +165,17 @@ func isNumericText(s string) bool {
 
 // Mutate applies one structural mutation to the tree at a position drawn by rapid and reports it.
 func Mutate(t *rapid.T, root *JV) Mutation {
+	m := mutate1(t, root)
+	// and, sometimes, the same tree with member names in the other spelling the codec reads
+	if Chance(t, "mut/camel", 15) {
+		if CamelKeys(t, "mut/camel", root) > 0 {
+			m.Kind += "+camel-keys"
+		}
+	}
+	return m
+}
+
+func mutate1(t *rapid.T, root *JV) Mutation {
 	var nodes []node
 	collect(root, "", nil, 0, "", &nodes)
 	n := nodes[uniform(t, "mut/node", len(nodes))]
@@ -503,5 +514,45 @@ func OneofSibling(t *rapid.T, root *JV) bool {
 	} else {
 		n.v.Obj = append(n.v.Obj, kv)
 	}
+	if Chance(t, "oneof/camel", 40) {
+		CamelKeys(t, "oneof/camel", root)
+	}
 	return true
+}
+
+// CamelKeys rewrites some member names of the memo tree (anywhere, about half of those that have
+// one) to their lowerCamel spelling, which the proto-JSON codec reads as the same field: the
+// meaning of the memo does not change, only the text every textual pre-check sees. Returns the
+// number of names rewritten.
+func CamelKeys(t *rapid.T, label string, root *JV) int {
+	n := 0
+	var walk func(v *JV)
+	walk = func(v *JV) {
+		if v == nil {
+			return
+		}
+		switch v.Kind {
+		case memo.JObj:
+			for i := range v.Obj {
+				k := v.Obj[i].K
+				if strings.Contains(k, "_") && !strings.HasPrefix(k, "@") && Chance(t, fmt.Sprintf("%s/%d", label, n), 50) {
+					parts := strings.Split(k, "_")
+					for j := 1; j < len(parts); j++ {
+						if parts[j] != "" {
+							parts[j] = strings.ToUpper(parts[j][:1]) + parts[j][1:]
+						}
+					}
+					v.Obj[i].K = strings.Join(parts, "")
+					n++
+				}
+				walk(v.Obj[i].V)
+			}
+		case memo.JArr:
+			for _, e := range v.Arr {
+				walk(e)
+			}
+		}
+	}
+	walk(root)
+	return n
 }
